@@ -285,6 +285,12 @@ def deadline_rule(R, oid, app):
                 if s_.kind == 'expr':
                     e_ = s_.expr
                     for b in ast.walk(e_):
+                        if isinstance(b, ast.BinOp) and isinstance(b.op, ast.Sub) and isinstance(b.left, ast.Name) and b.left.id not in wparams:
+                            # a plain copy of a parameter (made when a new helper was expanded): read through it
+                            cs_ = s_.ctx.sources(s_.node, b.left)
+                            if cs_ and all(c_.kind == 'param' and c_.expr in wparams for c_ in cs_) and len({c_.expr for c_ in cs_}) == 1 and any(
+                                    isinstance(c, ast.Call) and (callee_attr(c) == 'timestamp' or ast.unparse(c.func) == 'timestamp') for c in ast.walk(b.right)):
+                                dl_params.add(cs_[0].expr)
                         if isinstance(b, ast.BinOp) and isinstance(b.op, ast.Sub) and isinstance(b.left, ast.Name) \
                                 and b.left.id in wparams and any(isinstance(c, ast.Call) and callee_attr(c) in ('timestamp',) or
                                                                  (isinstance(c, ast.Call) and ast.unparse(c.func) == 'timestamp')
@@ -304,6 +310,11 @@ def deadline_rule(R, oid, app):
                         if a_.kind == 'expr' and any(isinstance(c, ast.Call) and (callee_attr(c) == 'timestamp' or ast.unparse(c.func) == 'timestamp')
                                                      for c in ast.walk(a_.expr)):
                             return True
+                        if a_.kind == 'expr' and depth < 3:
+                            # the clock reading hoisted into a local (`now = timestamp(); deadline = now + lifetime`)
+                            for x_ in ast.walk(a_.expr):
+                                if isinstance(x_, ast.Name) and isinstance(x_.ctx, ast.Load) and rooted(a_.ctx.sources(a_.node, x_), depth + 1):
+                                    return True
                         if a_.kind == 'aug' and depth < 3:
                             tgt = a_.expr.target
                             prev = [(d_, v_) for (d_, v_) in a_.ctx.cfg.defs_reaching(a_.node, tgt.id)] if isinstance(tgt, ast.Name) else []
